@@ -33,6 +33,10 @@ def classify_summation(S1, C1, S, C, V):
 
 def check(ctx):
     p = ctx.prog
+    # all arithmetic behind this property happens in the numeric type T of the instantiation
+    single_precision(ctx, 'prec.single_type', ['hep::accumulate', 'hep::accumulator::'], 1)
+    # no constructor of the classes this property computes with leaves a member indeterminate
+    members_initialised(ctx, 'init.members', ['hep::accumulator'], 2)
     ctx.assume('Kahan 1965 / Higham, Accuracy and Stability of Numerical Algorithms, Thm 4.8: with '
                'compensated summation |error| <= (2u + O(n u^2)) * sum |x_i|; the bound itself is not '
                'decided, only the presence and integrity of the mechanism')
@@ -203,6 +207,6 @@ def check(ctx):
     # the compensated sums must reach the reported result unchanged: result() reports the cell
     # scaled by the bin size and nothing else (shared with C02 / C11)
     from .common import share
-    share(ctx, 'C02', 'R4/C02.', ['R5.'])
-    share(ctx, 'C11', 'R4/C11.', ['R4.bin_sum'])
+    share(ctx, 'C02', 'R4/C02.', ['R5.', 'R2.'])
+    share(ctx, 'C11', 'R4/C11.', ['R4.bin_sum', 'R1.cell_storage', 'R1.storage'])
 
